@@ -129,6 +129,7 @@ def run(F, chk):
             rc.violation(key, b.where(oks[0][0]), "%s can return Ok although an invalid header field was seen" % fn.split("::")[-1])
     content_length_rule(F, chk)
     colon_name_rule(F, chk)
+    chunk_length_rule(F, chk)
     # ---------------- R-C03-d ----------------------------------------------------
     rd = chk.rule("R-C03-d", "T3", "an unparsable HTTP/1 request is answered 400 and never linked to a backend", floor=1)
     rdb = [p for p in F.paths() if p.startswith(MUX + "h1::ConnectionH1") and p.endswith("::readable") and "{closure" not in p]
@@ -279,3 +280,46 @@ def colon_name_rule(F, chk):
                     r.ok(key, cb.where(x), "only on the false edge of name.starts_with(b\":\")")
                 else:
                     r.violation(key, cb.where(x), "a field whose name starts with ':' can reach %s: classify_invalid_h2_header exempts such names from byte validation, so CR/LF in the name is forwarded to the HTTP/1 side" % c.split("::")[-1])
+
+
+def chunk_length_rule(F, chk):
+    """R-C03-h: when an HTTP/2 body is re-framed as chunked for an HTTP/1 backend, the size line announces exactly the
+    bytes of the chunk that follows: the value rendered into the ChunkHeader is the length (`.len()`) of the very slice
+    that is pushed as the Chunk's data.  Any other quantity (the wire length including padding, a running total) makes
+    the backend read a different chunk boundary than the proxy: the bytes in between are a smuggled request."""
+    r = chk.rule("R-C03-h", "T12", "the rendered chunk size is the length of the chunk's own data", floor=1)
+    n = 0
+    for b in F.grep('"var":"ChunkHeader"'):
+        if not b.path.startswith(MUX) or b.derived:
+            continue
+        for bi, si, st in b.stmts():
+            rv = st.get("rv")
+            if not (rv and rv["k"] == "agg" and rv.get("ak") == "adt" and rv["adt"].endswith("::Block") and rv["var"] == "ChunkHeader"):
+                continue
+            rend = lib.rendered_values(b, rv["ops"][0])
+            if not rend:
+                continue          # copied from a template, not rendered from a number
+            n += 1
+            r.fn(b.path)
+            # the data of the Chunk block(s) built in this function
+            chunk_data = set()
+            for bj, sj, s2 in b.stmts():
+                r2 = s2.get("rv")
+                if r2 and r2["k"] == "agg" and r2.get("ak") == "adt" and r2["adt"].endswith("::Block") and r2["var"] == "Chunk":
+                    chunk_data |= {lib.value_root(b, l) for l in guards.slice_of_operand(b, r2["ops"][0])["locals"]}
+            ok = False
+            why = "rendered value is not the result of a len() call"
+            for R in rend:
+                d = b.single_def(R)
+                if d and d[2] == "call" and callee_of(d[3]).endswith("::len") and d[3]["args"]:
+                    src = lib.value_root(b, op_local(d[3]["args"][0]))
+                    if src in chunk_data:
+                        ok = True
+                    else:
+                        why = "the length rendered belongs to another value than the slice pushed as the chunk"
+            key = "%s|ChunkHeader#%d size == len(chunk data)" % (b.path, n)
+            if ok:
+                r.ok(key, b.where(bi, si), "size rendered from len() of the slice moved into Block::Chunk")
+            else:
+                r.violation(key, b.where(bi, si), "the chunk-size line is not rendered from the length of the chunk's own data (%s): an HTTP/1 backend reads a different chunk boundary than sozu forwarded, and the bytes in between are parsed as a new request" % why)
+    r.require(n >= 1, "no ChunkHeader rendered from a number found in the mux")
